@@ -18,6 +18,7 @@ const (
 	maxInlineDepth = 6
 	defaultUnroll  = 3
 	maxPaths       = 60000
+	maxQueries     = 200000
 )
 
 // Exec verifies one top-level function for one property.
@@ -88,7 +89,12 @@ func (x *Exec) oblige(st *State, name string, goal Term, kind string) {
 	}
 	q := &Query{Name: name, Inst: x.instCount[name], Kind: kind, Goal: goal, Meta: map[string]string{}}
 	x.instCount[name]++
-	q.Lines = append([]string(nil), st.Cmds...)
+	q.Path = st.Cmds
+	if len(x.Queries) > maxQueries {
+		x.errorf("more than %d solver instances in %s: path explosion; add contracts or invariants", maxQueries, x.TopKey)
+		st.Dead = true
+		return
+	}
 	if len(st.Trace) > 0 {
 		q.Meta["trace"] = strings.Join(st.Trace, " ")
 	}
@@ -222,6 +228,7 @@ func (x *Exec) symValue(st *State, name string, t types.Type, entry bool) Val {
 			st.assume(Ge(r, IntT(0)))
 			if entry {
 				st.assume(Le(r, st.AllocBase))
+				st.Older[r.S] = 0
 			}
 			return scalar(r, t)
 		}
@@ -234,6 +241,7 @@ func (x *Exec) symValue(st *State, name string, t types.Type, entry bool) Val {
 		st.assume(Implies(Eq(v.Ref, IntT(0)), Eq(v.Cap, IntT(0))))
 		if entry {
 			st.assume(Le(v.Ref, st.AllocBase))
+			st.Older[v.Ref.S] = 0
 		}
 		if isOptionSlice(t) {
 			v.Abs = &OptAbs{Base: x.fresh(st, name+"!abs", SInt)}
@@ -277,6 +285,7 @@ func (x *Exec) symValue(st *State, name string, t types.Type, entry bool) Val {
 		st.assume(Ge(r, IntT(0)))
 		if entry {
 			st.assume(Le(r, st.AllocBase))
+			st.Older[r.S] = 0
 		}
 		return scalar(r, t)
 	}
@@ -285,9 +294,14 @@ func (x *Exec) symValue(st *State, name string, t types.Type, entry bool) Val {
 // ---------------------------------------------------------------- running
 
 func (x *Exec) newState() *State {
-	st := &State{Heap: map[string]string{}, Fwd: map[string]Val{}, Fresh: map[string]bool{}, Notes: map[string]bool{}, Dirty: map[string]bool{}}
+	st := &State{Heap: map[string]string{}, Fwd: map[string]Val{}, Fresh: map[string]bool{}, Notes: map[string]bool{}, Dirty: map[string]bool{}, Log: map[string]*logNode{}, FreshSeq: map[string]int{}, Older: map[string]int{}}
+	st.NonNil = map[string]bool{}
 	st.AllocBase = x.fresh(st, "wm0", SInt)
+	st.WM0 = st.AllocBase
 	st.assume(Ge(st.AllocBase, IntT(0)))
+	if x.Mode != "summary" {
+		x.assumeEntryHeapClosed(st)
+	}
 	return st
 }
 
@@ -565,6 +579,12 @@ func (x *Exec) doIf(st *State, fr *Frame, v *ssa.If) []*State {
 	if isLit(c, "false") {
 		return x.enterBlock(st, fr, fb)
 	}
+	if st.Known.has(c.S) {
+		return x.enterBlock(st, fr, tb)
+	}
+	if st.Known.has(Not(c).S) {
+		return x.enterBlock(st, fr, fb)
+	}
 	alt := st.clone()
 	afr := alt.top()
 	st.assume(c)
@@ -787,6 +807,9 @@ func (x *Exec) havocPrefix(st *State, prefix string) {
 func (x *Exec) doReturn(st *State, fr *Frame, res []Val) []*State {
 	if len(st.Frames) == 1 {
 		x.ends++
+		if x.debug && os.Getenv("GOVC_TRACE") != "" {
+			fmt.Fprintf(os.Stderr, "RET b%d %s\n", fr.Block.Index, strings.Join(st.Trace, " "))
+		}
 		if x.Mode == "summary" {
 			if x.SummaryEnd != nil {
 				x.SummaryEnd(st, res)
@@ -869,10 +892,7 @@ func (x *Exec) fieldAddr(st *State, fr *Frame, v *ssa.FieldAddr) Val {
 	f := s.Field(v.Field)
 	switch base.K {
 	case VScalar:
-		if x.nopanicActive(fr) {
-			x.oblige(st, x.obName(fr, "panic."+x.siteName(fr.Fn, v)), Neq(base.T, IntT(0)), "prove")
-		}
-		st.assume(Neq(base.T, IntT(0)))
+		x.nilCheck(st, fr, base.T, v)
 		a := &Addr{Prefix: fieldPrefix(pt, f.Name()), Ref: base.T, T: f.Type()}
 		x.registerPrefix(a.Prefix, f.Type())
 		return Val{K: VAddr, A: a, GoT: v.Type()}
@@ -896,7 +916,7 @@ func (x *Exec) indexAddr(st *State, fr *Frame, v *ssa.IndexAddr) Val {
 			x.oblige(st, x.obName(fr, "panic."+x.siteName(fr.Fn, v)), inb, "prove")
 		}
 		st.assume(inb)
-		ix := Add(base.Off, idx)
+		ix := x.idxTerm(base.Off, idx)
 		a := &Addr{Prefix: elemPrefix(et), Ref: base.Ref, Idx: &ix, T: et}
 		x.registerElemPrefix(a.Prefix, et)
 		return Val{K: VAddr, A: a, GoT: v.Type()}
@@ -1002,23 +1022,20 @@ func (x *Exec) boundLoadedRef(st *State, a *Addr, v Val) {
 			untouched = false
 		}
 	}
-	if untouched {
+	_, baseOld := st.Older[a.Ref.S]
+	baseEntry := isEntrySymbol(a.Ref.S) || (baseOld && st.Older[a.Ref.S] == 0)
+	if untouched && baseEntry {
 		st.assume(Le(r, x.entryWM(st)))
+		if _, ok := st.Older[r.S]; !ok && !st.Fresh[r.S] {
+			st.Older[r.S] = 0
+		}
 	} else {
 		st.assume(Le(r, Add(st.AllocBase, IntT(int64(st.AllocN)))))
+		st.markOlder(r)
 	}
 }
 
-func (x *Exec) entryWM(st *State) Term {
-	// the first declared constant of every path is wm0
-	for _, c := range st.Cmds {
-		if strings.HasPrefix(c, "(declare-const wm0~") {
-			f := strings.Fields(c)
-			return Term{f[1], SInt}
-		}
-	}
-	return st.AllocBase
-}
+func (x *Exec) entryWM(st *State) Term { return st.WM0 }
 
 func (x *Exec) loadStruct(st *State, t types.Type, r Term) Val {
 	s := t.Underlying().(*types.Struct)
@@ -1081,8 +1098,8 @@ func (x *Exec) unop(st *State, fr *Frame, v *ssa.UnOp) Val {
 	xv := x.val(fr, v.X)
 	switch v.Op {
 	case token.MUL:
-		if xv.K == VScalar && x.nopanicActive(fr) {
-			x.oblige(st, x.obName(fr, "panic."+x.siteName(fr.Fn, v)), Neq(xv.T, IntT(0)), "prove")
+		if xv.K == VScalar {
+			x.nilCheck(st, fr, xv.T, v)
 		}
 		r := x.load(st, fr, xv, v.X.Type())
 		if r.GoT == nil {
@@ -1145,11 +1162,15 @@ func (x *Exec) binop(st *State, fr *Frame, v *ssa.BinOp) Val {
 	}
 	if a.K == VSlice || b.K == VSlice {
 		// comparison with nil
-		s := a
-		if b.K == VSlice {
-			s = b
+		var isNil Term
+		switch {
+		case a.K == VSlice && b.K == VSlice:
+			isNil = Eq(a.Ref, b.Ref) // one side is the nil constant
+		case a.K == VSlice:
+			isNil = Eq(a.Ref, IntT(0))
+		default:
+			isNil = Eq(b.Ref, IntT(0))
 		}
-		isNil := Eq(s.Ref, IntT(0))
 		if v.Op == token.EQL {
 			return bterm(isNil)
 		}
@@ -1630,4 +1651,87 @@ func isPtrToArray(t types.Type) bool {
 	}
 	_, ok = p.Elem().Underlying().(*types.Array)
 	return ok
+}
+
+// nilCheck: dereference of pointer p at instruction ins. Fresh allocations and
+// pointers already checked on this path need no obligation.
+func (x *Exec) nilCheck(st *State, fr *Frame, p Term, ins ssa.Instruction) {
+	if st.Fresh[p.S] || st.NonNil[p.S] {
+		return
+	}
+	if x.nopanicActive(fr) {
+		x.oblige(st, x.obName(fr, "panic."+x.siteName(fr.Fn, ins)), Neq(p, IntT(0)), "prove")
+	}
+	st.assume(Neq(p, IntT(0)))
+	st.NonNil[p.S] = true
+}
+
+// idxTerm: position off+i inside a backing array. With a symbolic offset the sum
+// is wrapped in an uninterpreted function (defined by an axiom) so that
+// quantified facts about slice elements can be instantiated by matching.
+func (x *Ctx) idxTerm(off, i Term) Term {
+	if isLit(off, "0") {
+		return i
+	}
+	if _, ok := litInt(off); ok {
+		if _, ok2 := litInt(i); ok2 {
+			return Add(off, i)
+		}
+	}
+	x.Reg.DeclareFun("idx", []string{SInt, SInt}, SInt)
+	x.Reg.Axiom("idxdef", "(forall ((o Int) (i Int)) (! (= (idx o i) (+ o i)) :pattern ((idx o i))))")
+	return app("idx", SInt, off, i)
+}
+
+// assumeEntryHeapClosed: well-formedness of the arbitrary entry heap as far as
+// the ghost storage is concerned: stored snapshots are entry objects, and the
+// reference-valued fields of entry message objects point to entry objects.
+func (x *Exec) assumeEntryHeapClosed(st *State) {
+	wm := st.WM0.S
+	for _, k := range []string{"nodeinfo", "nodecreds", "roots", "token"} {
+		a := x.heapInit("St!rec!"+k, arrSort(SStr, SInt))
+		st.addCmd(fmt.Sprintf("(assert (forall ((id String)) (! (and (>= (select %s id) 0) (<= (select %s id) %s)) :pattern ((select %s id)))))", a.S, a.S, wm, a.S))
+	}
+	seen := map[string]bool{}
+	var visit func(t types.Type, depth int)
+	visit = func(t types.Type, depth int) {
+		tn := typeName(t)
+		if seen[tn] || depth > 3 {
+			return
+		}
+		seen[tn] = true
+		for _, f := range protoFields(t) {
+			ft := f.Type()
+			isRef := false
+			suffix := ""
+			switch u := ft.Underlying().(type) {
+			case *types.Pointer:
+				isRef = true
+				if mt, ok := isTypesMsgPtr(ft); ok {
+					visit(mt, depth+1)
+				}
+				_ = u
+			case *types.Slice:
+				isRef = true
+				if !isByteSlice(ft) {
+					suffix = "!ref"
+					if mt, ok := isTypesMsgPtr(u.Elem()); ok {
+						visit(mt, depth+1)
+					}
+				}
+			}
+			if !isRef {
+				continue
+			}
+			p := fieldPrefix(t, f.Name())
+			x.registerPrefix(p, ft)
+			a := x.heapInit(p+suffix, arrSort(SInt, SInt))
+			st.addCmd(fmt.Sprintf("(assert (forall ((r Int)) (! (=> (and (<= 0 r) (<= r %s)) (and (>= (select %s r) 0) (<= (select %s r) %s))) :pattern ((select %s r)))))", wm, a.S, a.S, wm, a.S))
+		}
+	}
+	for tn := range kindOfType {
+		if mt := x.lookupNamed(tn); mt != nil {
+			visit(mt, 0)
+		}
+	}
 }
